@@ -307,12 +307,17 @@ func funcToList(kv KVPair, args []Expression, ctx *ExecuteCtx) (any, error) {
 			useInt = true
 		} else if _, err := strconv.ParseFloat(fval, 64); err == nil {
 			useInt = false
+		} else {
+			// Text that is no number: a list of strings
+			return funcStrList(kv, args, ctx)
 		}
 	case []byte:
 		if _, err := strconv.ParseInt(string(fval), 10, 64); err == nil {
 			useInt = true
 		} else if _, err := strconv.ParseFloat(string(fval), 64); err == nil {
 			useInt = false
+		} else {
+			return funcStrList(kv, args, ctx)
 		}
 	case int, uint, int32, uint32, int64, uint64:
 		useInt = true
@@ -323,6 +328,18 @@ func funcToList(kv KVPair, args []Expression, ctx *ExecuteCtx) (any, error) {
 		return funcIntList(kv, args, ctx)
 	}
 	return funcFloatList(kv, args, ctx)
+}
+
+func funcStrList(kv KVPair, args []Expression, ctx *ExecuteCtx) (any, error) {
+	ret := make([]string, len(args))
+	for i, arg := range args {
+		rarg, err := arg.Execute(kv, ctx)
+		if err != nil {
+			return nil, err
+		}
+		ret[i] = toString(rarg)
+	}
+	return ret, nil
 }
 
 func funcLen(kv KVPair, args []Expression, ctx *ExecuteCtx) (any, error) {
